@@ -71,6 +71,14 @@ CORPUS = [
          old="\t\t\toffset = si - next\n", new="\t\t\toffset = si - next + 1\n"),
     dict(name="C01-hc-last-length-run-one-short", kind="break", props=["C01"], file="internal/lz4block/block.go",
          old="lLen -= 0xF\n\t\tfor ; lLen >= 0xFF; lLen -= 0xFF {", new="lLen -= 0xF\n\t\tfor ; lLen > 0xFF; lLen -= 0xFF {"),
+    dict(name="C04-portable-shortcut2-allows-overlap", kind="break", props=["C04"], file="internal/lz4block/decode_other.go",
+         old="mLen <= offset && offset < di {", new="mLen <= offset+1 && offset < di {"),
+    dict(name="C04-portable-offset-read-late", kind="break", props=["C04"], file="internal/lz4block/decode_other.go",
+         old="\t\toffset := u16(src[si:])\n", new="\t\toffset := u16(src[si+1:])\n"),
+    dict(name="C04-portable-doubling-stops-early", kind="break", props=["C04", "C01"], file="internal/lz4block/decode_other.go",
+         old="for n := offset; n <= bytesToCopy+offset; n *= 2 {", new="for n := offset; n < bytesToCopy; n *= 2 {"),
+    dict(name="C04-benign-rename-decoder-locals", kind="benign", props=["C04", "C03"], file="internal/lz4block/decode_other.go",
+         regex=r"\bbytesToCopy\b", new="chunk"),
     dict(name="C04-portable-dict-index-off-by-one", kind="break", props=["C04", "C12"], file="internal/lz4block/decode_other.go",
          old="fromDict := dict[uint(len(dict))+di-offset:]", new="fromDict := dict[uint(len(dict))+di-offset+1:]"),
     dict(name="C04-asm-interior-match-short", kind="break", props=["C04", "C12"], file="internal/lz4block/decode_amd64.s",
